@@ -15,6 +15,9 @@ mod shared;
 mod common;
 mod c01;
 mod c02;
+mod tzcorpus;
+mod tzd;
+mod tzread;
 
 use common::Args;
 use std::path::PathBuf;
@@ -45,6 +48,9 @@ fn main() {
     match driver.as_str() {
         "c01" => c01::run(&a),
         "c02" => c02::run(&a),
+        "c03" => tzd::run_c03(&a),
+        "c04" => tzd::run_c04(&a),
+        "c14" => tzd::run_c14(&a),
         _ => {
             eprintln!("unknown driver {driver}");
             std::process::exit(2);
